@@ -76,8 +76,10 @@ UnterminatedLastLines(nb) ==
   {StripEnd(SplitLines(SourceOf(CellsOf(nb)[k]), PyLineSeps)[Len(SplitLines(SourceOf(CellsOf(nb)[k]), PyLineSeps))]) :
      k \in {q \in 1..Len(CellsOf(nb)) :
               LET c == SourceOf(CellsOf(nb)[q]) IN Len(c) > 0 /\ c[Len(c)] \notin Terminators}}
-\* ln = u1 \o ... \o un \o t : every ui an unterminated last line of one of the three notebooks, at least one of
-\* them of the base, t a source line of the inputs
+\* ln = u1 \o ... \o un \o t : every ui an unterminated last line of one of the three notebooks, t a source line of
+\* the inputs - provided the base has a source whose last line is unterminated (the root of the finding: the change
+\* that gives that line its end is conflicted while a line appended behind it is applied; what gets glued is the
+\* base's last line or, when the conflict is resolved to a side, that side's version of it)
 RECURSIVE GluedChain(_, _, _, _, _)
 GluedChain(ln, ubase, uall, src, usedBase) ==
   \E pre \in uall :
@@ -87,7 +89,8 @@ GluedChain(ln, ubase, uall, src, usedBase) ==
         IN (ub /\ rest \in src) \/ GluedChain(rest, ubase, uall, src, ub)
 IsGlued(ln, base, local, remote, src) ==
   GluedChain(ln, UnterminatedLastLines(base),
-             UnterminatedLastLines(base) \cup UnterminatedLastLines(local) \cup UnterminatedLastLines(remote), src, FALSE)
+             UnterminatedLastLines(base) \cup UnterminatedLastLines(local) \cup UnterminatedLastLines(remote), src,
+             UnterminatedLastLines(base) # {})
 LinesProvenanceModGlue(base, local, remote, merged) ==
   LET src == SourceLines(base) \cup SourceLines(local) \cup SourceLines(remote)
   IN \A ln \in SourceLines(merged) : IsBlank(ln) \/ ln \in src \/ IsMarker(ln) \/ IsGlued(ln, base, local, remote, src)
